@@ -7,10 +7,12 @@
    Bellman-Ford fixpoint = path enumeration, monotonicity under insertion / removal).
 2. TLC checks the implementation-shaped specs ds/DynamicSSSP.tla and ds/LPAstar.tla against the
    contract for all histories within the bounds (refinement as invariant + the LPA* consistency
-   invariants).  LPAstar is checked as coded (TLC refutes it: design findings, whose counterexample
-   histories are re-executed on the real class) and with the two refuted statements repaired
-   (must refine).  DynamicSSSP is checked under its documented no-ties assumption (must refine)
-   and without it (TLC shows what the assumption is needed for).
+   invariants).  LPAstar is checked as the code is now (must refine) and with each of the two
+   statements of the pinned code that TLC refuted (erase-by-value in removeQueue, "empty queue =
+   infinity" in computeShortestPath; repaired in /repo by dd4cdccd9 and 56f0c279a) put back as a
+   model mutation: TLC must still refute those (vacuity gate), and their counterexample histories
+   are re-executed on the real class as regression scenarios.  DynamicSSSP is checked under its
+   documented no-ties assumption (must refine) and without it (TLC shows what it is needed for).
 3. The contract's state graph is exported with the table of admissible answers per state and
    replayed on the real classes (ASan/UBSan): every edge, every pair of edges, random walks, all
    paths up to a depth; complete query battery after every observed step.
@@ -22,6 +24,7 @@ import json
 import os
 import shutil
 import threading
+import time
 from concurrent.futures import ThreadPoolExecutor
 
 import vlib
@@ -57,7 +60,7 @@ def _contract_cfg(name, dump, **c):
 
 
 LPA_INVS = ("RefinesContract RhsIsLookahead ParentRealisesRhs QueueIsInconsistentSet FlagIsMembership "
-            "KeysCurrent QueueSorted SearchPostcondition")
+            "KeysCurrent QueueSorted SearchPostcondition TargetKeyStableInQueue")
 
 
 def _lpa_cfg(name, erase, empty, maxlen=0, invs=LPA_INVS, view="LView", **c):
@@ -241,8 +244,9 @@ def _mc_contract(run, name, **c):
 def _mc_impl(run, module, cfg, name, mode, confirm_kind=None):
     """model-check an implementation-shaped spec.
     mode "ok":         the configuration must refine the contract;
-         "finding":    the as-coded model, TLC must refute it: a design finding whose counterexample
-                       history is re-executed on the real class and judged by the trace specification;
+         "finding":    a model mutation that puts a refuted statement of the pinned code back: TLC must
+                       refute it (vacuity gate); the counterexample history is re-executed on the real
+                       class and judged by the trace specification (a regression shows up as a violation);
          "assumption": the model outside a documented assumption, TLC must refute it (shows what the
                        assumption is needed for; no verdict on the code);
          "probe":      a reachability probe (vacuity gate), the invariant must be violated."""
@@ -255,7 +259,7 @@ def _mc_impl(run, module, cfg, name, mode, confirm_kind=None):
         run.ck.tlc(res, name)
     if mode == "ok":
         if res.violated:
-            raise FrameworkError("%s (%s): the repaired / assumption-respecting algorithm model does not refine the "
+            raise FrameworkError("%s (%s): the algorithm model (code as it is, documented assumptions kept) does not refine the "
                                  "contract (%s violated) - the model or the contract is wrong:\n%s"
                                  % (module, name, res.violated, res.out[-3000:]))
         return None
@@ -269,7 +273,7 @@ def _mc_impl(run, module, cfg, name, mode, confirm_kind=None):
     note = {"config": name, "violated": res.violated, "history": _brief(ops)}
     with run.lock:
         (run.design if mode == "finding" else run.assumption_demos).append(note)
-    log("[G01] %s (%s): %s violated after %s" % ("design finding" if mode == "finding" else "assumption is needed",
+    log("[G01] %s (%s): %s violated after %s" % ("pinned variant refuted" if mode == "finding" else "assumption is needed",
                                                    name, res.violated, note["history"]))
     if confirm_kind:
         run.to_confirm.append((name, confirm_kind, ops))
@@ -277,7 +281,7 @@ def _mc_impl(run, module, cfg, name, mode, confirm_kind=None):
 
 
 def _confirm_on_real(run):
-    """the counterexample histories TLC found in the as-coded models, on the real class"""
+    """the counterexample histories TLC found in the model mutations, on the real class"""
     for name, kind, ops in run.to_confirm:
         sc = os.path.join(WORK, "g01-cex-%s-scenario.json" % name)
         tr = os.path.join(WORK, "g01-cex-%s-trace.ndjson" % name)
@@ -287,12 +291,12 @@ def _confirm_on_real(run):
         rc, out, err = run_cmd([run.binary, "scenario", sc, tr], timeout=120)
         if rc not in (0, 70, 71, 77, 78):
             raise FrameworkError("scenario run failed rc=%s: %s" % (rc, (out + err)[-800:]))
-        nrej = _validate(run, tr, "TLC counterexample of the as-coded model (%s) re-executed on the real class" % name, count=False)
+        nrej = _validate(run, tr, "TLC counterexample of the model mutation %s re-executed on the real class" % name, count=False)
         run.ck.add("traces_validated_against_impl", 1)
         for d in run.design:
             if d["config"] == name:
                 d["real_code_shows_it"] = bool(nrej) or rc != 0
-        log("[G01] counterexample of %s on the real class: %s" % (name, "REPRODUCED" if nrej or rc else "not reproduced"))
+        log("[G01] counterexample of %s on the real class: %s" % (name, "REPRODUCED" if nrej or rc else "not reproduced (the code does not have this defect)"))
 
 
 def _dump(run, name, **c):
@@ -336,14 +340,13 @@ def _dump(run, name, **c):
     return gpath, len(g.edges)
 
 
-def _replay(run, kind, name, gpath, nshards, edges, pairs, walks, walklen, budget):
-    def one(shard):
-        cmd = [run.binary, "replay", kind, gpath, str(shard), str(nshards), "edges" if edges else "-",
-               pairs if pairs else "-", str(walks), str(walklen), str(budget)]
-        return run_cmd(cmd, timeout=3000)
+def _replay_shard(run, kind, gpath, shard, nshards, edges, pairs, walks, walklen, budget):
+    cmd = [run.binary, "replay", kind, gpath, str(shard), str(nshards), "edges" if edges else "-",
+           pairs if pairs else "-", str(walks), str(walklen), str(budget)]
+    return run_cmd(cmd, timeout=3000)
 
-    with ThreadPoolExecutor(max_workers=nshards) as ex:
-        results = list(ex.map(one, range(nshards)))
+
+def _replay_collect(run, kind, name, results):
     tot = {"scenarios": 0, "steps": 0}
     for shard, (rc, out, err) in enumerate(results):
         for f in _parse(out, "FINDING"):
@@ -377,6 +380,7 @@ def _replay(run, kind, name, gpath, nshards, edges, pairs, walks, walklen, budge
         run.ck.add("replayed_scenarios", tot["scenarios"])
         run.ck.add("replayed_steps", tot["steps"])
         run.ck.sample({"kind": "replayed state graph", "config": name, "scenarios": tot["scenarios"], "steps": tot["steps"]})
+    log("[G01] replayed %s: %d scenarios, %d steps" % (name, tot["scenarios"], tot["steps"]))
 
 
 def _record(run, kind, histories, ops, maxv, idx):
@@ -436,17 +440,17 @@ def run(tier):
     lpa_h = dict(kind="lpa", n=3, w=(1, 2, 3), maxe=6, src=0, tgt=2, hsel=1, tiefree=False)
     lpad_small = dict(kind="lpad", n=3, w=(1, 2), maxe=4 if quick else 6, src=0, tgt=2, hsel=0, tiefree=False)
     impl = [
-        # as coded: TLC refutes (design findings), counterexamples go to the real class
-        ("lpa-as-coded", "ds/LPAstar", _lpa_cfg("lpa-as-coded", True, True, invs="RefinesContract", **lpa_small), "finding", "lpa"),
-        ("lpa-erase-as-coded", "ds/LPAstar", _lpa_cfg("lpa-erase-as-coded", True, False, invs="RefinesContract", **lpa_small), "finding", "lpa"),
-        ("lpa-endless-as-coded", "ds/LPAstar", _lpa_cfg("lpa-endless-as-coded", True, True, invs="Terminates",
+        # the pinned statements put back (model mutations): TLC must refute, counterexamples go to the real class
+        ("lpa-pinned-both", "ds/LPAstar", _lpa_cfg("lpa-pinned-both", True, True, invs="RefinesContract", **lpa_small), "finding", "lpa"),
+        ("lpa-pinned-erase", "ds/LPAstar", _lpa_cfg("lpa-pinned-erase", True, False, invs="RefinesContract", **lpa_small), "finding", "lpa"),
+        ("lpa-pinned-endless", "ds/LPAstar", _lpa_cfg("lpa-pinned-endless", True, True, invs="Terminates",
                                                          **dict(lpa_small, n=4, tgt=3, maxe=8)), "finding", "lpa"),
-        ("lpa-erase-invariant", "ds/LPAstar", _lpa_cfg("lpa-erase-invariant", True, False, invs="QueueIsInconsistentSet", **lpa_small), "finding", None),
-        ("lpad-as-coded", "ds/LPAstar", _lpa_cfg("lpad-as-coded", True, True, invs="RefinesContract", **lpad_small), "finding", "lpad"),
-        # repaired: must refine, with all the LPA* invariants
-        ("lpa-repaired-3", "ds/LPAstar", _lpa_cfg("lpa-repaired-3", False, False, **lpa_small), "ok", None),
-        ("lpa-repaired-3h", "ds/LPAstar", _lpa_cfg("lpa-repaired-3h", False, False, **lpa_h), "ok", None),
-        ("lpad-repaired-3", "ds/LPAstar", _lpa_cfg("lpad-repaired-3", False, False, **lpad_small), "ok", None),
+        ("lpa-pinned-erase-invariant", "ds/LPAstar", _lpa_cfg("lpa-pinned-erase-invariant", True, False, invs="QueueIsInconsistentSet", **lpa_small), "finding", None),
+        ("lpad-pinned-both", "ds/LPAstar", _lpa_cfg("lpad-pinned-both", True, True, invs="RefinesContract", **lpad_small), "finding", "lpad"),
+        # the code as it is: must refine, with all the LPA* invariants
+        ("lpa-current-3", "ds/LPAstar", _lpa_cfg("lpa-current-3", False, False, **lpa_small), "ok", None),
+        ("lpa-current-3h", "ds/LPAstar", _lpa_cfg("lpa-current-3h", False, False, **lpa_h), "ok", None),
+        ("lpad-current-3", "ds/LPAstar", _lpa_cfg("lpad-current-3", False, False, **lpad_small), "ok", None),
         # vacuity probes of the LPA* model (each must be violated = the situation is reachable)
         ("lpa-probe-over", "ds/LPAstar", _lpa_cfg("lpa-probe-over", False, False, invs="ProbeNoOverconsistentHead", view="LViewProbe", **lpa_small), "probe", None),
         ("lpa-probe-under", "ds/LPAstar", _lpa_cfg("lpa-probe-under", False, False, invs="ProbeNoUnderconsistentHead", view="LViewProbe", **lpa_small), "probe", None),
@@ -461,20 +465,20 @@ def run(tier):
     if not quick:
         lpa4 = dict(kind="lpa", n=4, w=(1, 2), maxe=12, src=0, tgt=3, hsel=0, tiefree=False)
         impl += [
-            ("lpa-repaired-4-len7", "ds/LPAstar", _lpa_cfg("lpa-repaired-4-len7", False, False, maxlen=7, **lpa4), "ok", None),
-            ("lpa-repaired-4-e6", "ds/LPAstar", _lpa_cfg("lpa-repaired-4-e6", False, False, **dict(lpa4, maxe=6)), "ok", None),
+            ("lpa-current-4-len7", "ds/LPAstar", _lpa_cfg("lpa-current-4-len7", False, False, maxlen=7, **lpa4), "ok", None),
+            ("lpa-current-4-e6", "ds/LPAstar", _lpa_cfg("lpa-current-4-e6", False, False, **dict(lpa4, maxe=6)), "ok", None),
             ("sssp-tiefree-3-ordered", "ds/DynamicSSSP", _sssp_cfg("sssp-tiefree-3-ordered", view="SViewOrdered", kind="sssp", n=3, w=(1, 2, 4), maxe=4), "ok", None),
             ("sssp-tiefree-4", "ds/DynamicSSSP", _sssp_cfg("sssp-tiefree-4", kind="sssp", n=4, w=(1, 2, 4), maxe=3), "ok", None),
-            ("lpad-repaired-3-e6", "ds/LPAstar", _lpa_cfg("lpad-repaired-3-e6", False, False, **dict(lpad_small, maxe=6)), "ok", None),
+            ("lpad-current-3-e6", "ds/LPAstar", _lpa_cfg("lpad-current-3-e6", False, False, **dict(lpad_small, maxe=6)), "ok", None),
         ]
     # ---- 3. state graphs to replay
     if quick:
         dumps = [("dump-sssp-4", dict(kind="sssp", n=4, w=(1, 2, 4), maxe=3), dict(edges=True, pairs=None, walks=2000, walklen=40, budget=0)),
-                 ("dump-sssp-3", dict(kind="sssp", n=3, w=(1, 2, 4), maxe=6), dict(edges=True, pairs="pairs2", walks=2000, walklen=30, budget=40000)),
+                 ("dump-sssp-3", dict(kind="sssp", n=3, w=(1, 2, 4), maxe=4), dict(edges=True, pairs="pairs2", walks=2000, walklen=30, budget=40000)),
                  ("dump-lpa-4h", dict(kind="lpa", n=4, w=(1, 2, 3), maxe=12, src=0, tgt=3, hsel=1, tiefree=False), dict(edges=True, pairs="pairs2", walks=4000, walklen=40, budget=0)),
                  ("dump-lpa-3", dict(kind="lpa", n=3, w=(1, 2), maxe=6, src=0, tgt=2, hsel=0, tiefree=False), dict(edges=True, pairs="pairs", walks=2000, walklen=30, budget=100000)),
-                 ("dump-lpad-3", dict(kind="lpad", n=3, w=(1, 2), maxe=6, src=0, tgt=2, hsel=0, tiefree=False), dict(edges=True, pairs="pairs", walks=2000, walklen=30, budget=40000)),
-                 ("dump-adj-3", dict(kind="adj", n=3, w=(0, 1, 2), maxe=6, tiefree=False), dict(edges=True, pairs="pairs2", walks=1500, walklen=30, budget=20000))]
+                 ("dump-lpad-3", dict(kind="lpad", n=3, w=(1, 2), maxe=6, src=0, tgt=2, hsel=0, tiefree=False), dict(edges=True, pairs="pairs2", walks=2000, walklen=30, budget=40000)),
+                 ("dump-adj-3", dict(kind="adj", n=3, w=(0, 1, 2), maxe=6, tiefree=False), dict(edges=True, pairs=None, walks=1500, walklen=30, budget=20000))]
         rec = [("sssp", 12, 250, 12), ("lpa", 12, 250, 12), ("lpad", 8, 200, 10), ("adj", 8, 200, 10)]
     else:
         dumps = [("dump-sssp-4", dict(kind="sssp", n=4, w=(1, 2, 4), maxe=4), dict(edges=True, pairs=None, walks=20000, walklen=60, budget=0)),
@@ -510,23 +514,26 @@ def run(tier):
     bt.join()
     if build_err:
         raise build_err[0]
-    ck.set("design_findings", run.design)
+    ck.set("pinned_variants_refuted_by_tlc", run.design)
     ck.set("assumption_demonstrations", run.assumption_demos)
 
     # ---- real class: TLC's counterexamples, the state graphs, recorded histories
     _confirm_on_real(run)
-    nsh = max(1, min(8, ncpu // 3))
-
-    def do_replay(item):
-        name, c, how = item
-        gpath, nedges = dump_out[name]
-        _replay(run, c["kind"], name, gpath, nsh, how["edges"], how["pairs"], how["walks"], how["walklen"], how["budget"])
-
-    with ThreadPoolExecutor(max_workers=3) as ex:
-        futs = [ex.submit(do_replay, d) for d in dumps]
-        futs += [ex.submit(_record, run, a[0], a[1], a[2], a[3], i) for i, a in enumerate(rec)]
-        for f in futs:
+    log("[G01] TLC phase done after %.0fs" % (time.time() - ck.t0))
+    nsh = max(1, min(ncpu, 8))
+    with ThreadPoolExecutor(max_workers=ncpu) as ex:
+        shard_futs = {}
+        for name, c, how in dumps:
+            gpath, nedges = dump_out[name]
+            k = nsh if nedges > 3000 else max(1, nsh // 4)
+            shard_futs[name] = [ex.submit(_replay_shard, run, c["kind"], gpath, i, k, how["edges"], how["pairs"], how["walks"],
+                                          how["walklen"], how["budget"]) for i in range(k)]
+        rec_futs = [ex.submit(_record, run, a[0], a[1], a[2], a[3], i) for i, a in enumerate(rec)]
+        for name, c, how in dumps:
+            _replay_collect(run, c["kind"], name, [f.result() for f in shard_futs[name]])
+        for f in rec_futs:
             f.result()
+    log("[G01] replay and trace validation done after %.0fs" % (time.time() - ck.t0))
 
     # ---- vacuity gates
     for k, v in run.metrics.items():
